@@ -40,7 +40,9 @@ def runCase (w : List String) : String :=
       let b := writeSol tokCodec s
       let reals := duals ++ primals
       let good := (reals.filter (fun t => goodNumB t.1)).length
-      s!"{id} good={good}/{reals.length} bytes={hex b} || {showResult (readSol (fx != 0) nv nc ⟨0, .all, .all, .all⟩ b)}"
+      let stoks := realEntryToks tokCodec sufs
+      let sgood := (stoks.filter goodSufTokB).length
+      s!"{id} good={good}/{reals.length} goodsuf={sgood}/{stoks.length} bytes={hex b} || {showResult (readSol (fx != 0) nv nc ⟨0, .all, .all, .all⟩ b)}"
     | _, _, _, _, _, _, _, _, _, _, _, _ => "bad-op"
   | _ => "bad-op"
 
